@@ -57,11 +57,11 @@ theorem fs_methods_balanced :
 theorem loops_neutral : (lockSkeletons.all (fun (_, evs) => loopsNeutral evs)) = true := by
   decide
 
-/-- (5) The only `panic` calls in the lock-relevant code are the two streaming goroutines of a
-    handle (finding F18); any other function is panic-free. -/
+/-- (5) No function of the lock-relevant code (operations, drive manager, every filesystem and
+    file method and their goroutines) calls `panic`: the two streaming goroutines, which used to
+    turn a read error into a panic (finding F18, repaired), hand the error to the reader. -/
 theorem panic_sites :
-    (lockSkeletons.filter (fun (_, evs) => evs.contains .panic)).map (·.1) =
-      [n!"File.seekWithoutLocking$go0", n!"File.Read$go0"] := by
+    (lockSkeletons.filter (fun (_, evs) => evs.contains .panic)).map (·.1) = [] := by
   decide
 
 /-- (6) F21 witness (drive manager): when opening the drive fails, `GetWriter` and
